@@ -898,6 +898,22 @@ func (m *monitors) paramsAndSupply(where string) {
 	})
 	// paginated total supply: each denomination exactly once and with the right amount, whatever the page size,
 	// direction and paging mode (key / offset / no pagination at all)
+	// the gRPC handlers clients reach (TotalSupply and its bank-route replacement), alternating
+	nPageCalls := 0
+	totalSupplyPage := func(pr *query.PageRequest) (sdk.Coins, *query.PageResponse, error) {
+		nPageCalls++
+		var res *enttypes.QueryTotalSupplyResponse
+		var err error
+		if nPageCalls%2 == 0 {
+			res, err = ek.TotalSupply(sdk.WrapSDKContext(ctx), &enttypes.QueryTotalSupplyRequest{Pagination: pr})
+		} else {
+			res, err = ek.TotalSupplyOverwrite(sdk.WrapSDKContext(ctx), &enttypes.QueryTotalSupplyRequest{Pagination: pr})
+		}
+		if err != nil {
+			return nil, nil, err
+		}
+		return res.Supply, res.Pagination, nil
+	}
 	checkListing := func(how string, seen map[string]int, amounts map[string]sdk.Int) {
 		for _, d := range denoms {
 			if seen[d] != 1 {
@@ -918,7 +934,7 @@ func (m *monitors) paramsAndSupply(where string) {
 			seen, amounts := map[string]int{}, map[string]sdk.Int{}
 			var key []byte
 			for page := 0; page < 20; page++ {
-				coins, pr, err := ek.GetTotalSupplyWithLockedNundRemoved(ctx, &query.PageRequest{Key: key, Limit: limit, Reverse: reverse})
+				coins, pr, err := totalSupplyPage(&query.PageRequest{Key: key, Limit: limit, Reverse: reverse})
 				if err != nil {
 					break
 				}
@@ -935,7 +951,7 @@ func (m *monitors) paramsAndSupply(where string) {
 		}
 		seen, amounts := map[string]int{}, map[string]sdk.Int{}
 		for off := uint64(0); off < uint64(len(denoms)); off += 2 {
-			coins, _, err := ek.GetTotalSupplyWithLockedNundRemoved(ctx, &query.PageRequest{Offset: off, Limit: 2, Reverse: reverse, CountTotal: true})
+			coins, _, err := totalSupplyPage(&query.PageRequest{Offset: off, Limit: 2, Reverse: reverse, CountTotal: true})
 			if err != nil {
 				break
 			}
@@ -946,7 +962,7 @@ func (m *monitors) paramsAndSupply(where string) {
 		}
 		checkListing(fmt.Sprintf("by offset, limit 2, reverse=%v", reverse), seen, amounts)
 	}
-	if coins, _, err := ek.GetTotalSupplyWithLockedNundRemoved(ctx, nil); err == nil {
+	if coins, _, err := totalSupplyPage(nil); err == nil {
 		seen, amounts := map[string]int{}, map[string]sdk.Int{}
 		for _, coin := range coins {
 			seen[coin.Denom]++
